@@ -246,6 +246,11 @@ impl CanonicalAssets {
         Some(Self(aggregated))
     }
 
+    /// Subtraction that reports an overflow of any amount instead of wrapping or panicking.
+    pub fn checked_sub(self, other: Self) -> Option<Self> {
+        self.checked_add(other.checked_neg()?)
+    }
+
     /// Negation that reports an overflow of any amount instead of wrapping or panicking.
     pub fn checked_neg(self) -> Option<Self> {
         let mut negated = self.0;
